@@ -15,25 +15,34 @@ def parseParent (n : Nat) (par : String) : Option (Option Nat) :=
 
 def parseQuota (n : Nat) (w : String) : Option QCfg :=
   match w.splitOn "," with
-  | ["f"] => some ⟨.fixed, 0, 0, none⟩
+  | ["f"] => some ⟨.fixed, 0, 0, none, .any⟩
   | ["f", par] => do
     let p ← parseParent n par
     if p.isNone then none
-    pure ⟨.fixed, 0, 0, p⟩
+    pure ⟨.fixed, 0, 0, p, .any⟩
   | ["c", mx, ex, par] => do
     let mx ← mx.toNat?
     let ex ← ex.toNat?
     if ex == 0 then none
     let p ← parseParent n par
-    pure ⟨.conc, mx, expNs ex, p⟩
+    pure ⟨.conc, mx, expNs ex, p, .any⟩
   | _ => none
+
+def parseFlt (w : Option String) : Option Flt :=
+  match w with
+  | none => some .any
+  | some "mG" => some .mGet
+  | some "mP" => some .mPost
+  | some "py" => some .pathY
+  | some "h" => some .hdr
+  | some _ => none
 
 partial def parseQuotas (ws : List String) (acc : Array QCfg) : Option (List QCfg) :=
   match kv ws s!"q{acc.size}" with
   | none => some acc.toList
-  | some w => match parseQuota acc.size w with
-    | some q => parseQuotas ws (acc.push q)
-    | none => none
+  | some w => match parseQuota acc.size w, parseFlt (kv ws s!"f{acc.size}") with
+    | some q, some f => parseQuotas ws (acc.push { q with flt := f })
+    | _, _ => none
 
 def parseOrder (w : String) (n : Nat) : Option (List Nat) :=
   let parts := w.splitOn ","
@@ -65,13 +74,24 @@ def fmtMembers (cfg : Cfg) (mem : Nat → List Member) : String :=
 def fmtVerdict : Verdict → String
   | .admitted => "v=a" | .refused => "v=r" | .early => "v=e" | .none => "ok"
 
+/-- optional `p=<x|y>` (default x) and `h=<0|1>` (default 0) -/
+def parseTx (rest : List String) (m : String) : Option Tx := do
+  let post ← if m == "G" then some false else if m == "P" then some true else none
+  let py ← match kv rest "p" with | none => some false | some "x" => some false | some "y" => some true | some _ => none
+  let h ← match kv rest "h" with | none => some false | some "0" => some false | some "1" => some true | some _ => none
+  pure ⟨post, py, h⟩
+
 def parseEvent (ws : List String) : Option Event :=
   match ws with
   | "req" :: rest => do
     let r ← kvNat rest "r"
     let m ← kv rest "m"
-    if m == "G" then pure (.req r false) else if m == "P" then pure (.req r true) else none
-  | "resp" :: rest => (kvNat rest "r").map .resp
+    let tx ← parseTx rest m
+    pure (.req r tx)
+  | "resp" :: rest => do
+    let r ← kvNat rest "r"
+    let tx ← parseTx rest ((kv rest "m").getD "G")
+    pure (.resp r tx)
   | "err" :: rest => (kvNat rest "r").map .err
   | "adv" :: rest => (kvNat rest "d").map .adv
   | _ => none
